@@ -265,9 +265,16 @@ class CSSRuleRules(CSSRule):
             rule = tempsheet.cssRules[0]
 
         elif isinstance(rule, cssutils.css.CSSRuleList):
-            # insert all rules
-            for i, r in enumerate(rule):
-                self.insertRule(r, index + i)
+            # insert all rules, or none if one of them is refused
+            done = 0
+            try:
+                for i, r in enumerate(rule):
+                    self.insertRule(r, index + i)
+                    done += 1
+            except xml.dom.DOMException:
+                for _ in range(done):
+                    self.deleteRule(index)
+                raise
             return True, True
 
         elif not isinstance(rule, cssutils.css.CSSRule):
